@@ -1009,3 +1009,56 @@ Print Assumptions Quadratic_zero_roundtrip.
 Example BET_zero_roundtrip_degenerate_example :
   BET_bounds 5 (1/2) (1/2) /\ BET_pressure 5 (1/2) (1/2) (BET_loading 5 (1/2) (1/2) 0) = 0.
 Proof. exact BET_zero_roundtrip_degenerate_example. Qed.
+
+(* ======== ownership of the parameter dictionary (bindings GENERATED from IsothermBaseModel.__init__ / to_dict(): Gen/ModelInitGen.v) ======== *)
+From Coq Require Import String.
+From PG Require Import Models.ParamHeap Gen.ModelInitGen Models.ParamOwnership.
+Open Scope string_scope.
+
+Theorem model_parameters_are_a_copy : forall names h src, live h src ->
+  let r := construct Base_init_params names h src in
+  snd r <> src /\ ~ live h (snd r) /\ live (fst r) (snd r) /\
+  (forall k, In k names -> cell (fst r) (snd r) k = cell h src k) /\
+  (forall i, live h i -> cell (fst r) i = cell h i).
+Proof. exact model_parameters_are_a_copy. Qed.
+Print Assumptions model_parameters_are_a_copy.
+
+Theorem model_unaffected_by_stores_elsewhere : forall names h src ws,
+  live h src -> (forall w, In w ws -> live h (target w)) ->
+  let r := construct Base_init_params names h src in
+  forall k, In k names -> cell (writes (fst r) ws) (snd r) k = cell h src k.
+Proof. exact model_unaffected_by_stores_elsewhere. Qed.
+Print Assumptions model_unaffected_by_stores_elsewhere.
+
+Theorem parameter_sweep_keeps_earlier_models : forall names h src ws,
+  live h src -> (forall w, In w ws -> target w = src) ->
+  let r1 := construct Base_init_params names h src in
+  let h2 := writes (fst r1) ws in
+  let r2 := construct Base_init_params names h2 src in
+  forall k, In k names ->
+    cell (fst r2) (snd r1) k = cell h src k /\ cell (fst r2) (snd r2) k = cell h2 src k.
+Proof. exact parameter_sweep_keeps_earlier_models. Qed.
+Print Assumptions parameter_sweep_keeps_earlier_models.
+
+Theorem refitting_a_clone_keeps_the_original : forall names h src ws,
+  live h src ->
+  let r1 := construct Base_init_params names h src in
+  let r2 := to_dict_parameters Base_to_dict_parameters (fst r1) (snd r1) in
+  let r3 := construct Base_init_params names (fst r2) (snd r2) in
+  (forall w, In w ws -> target w = snd r3) ->
+  forall k, In k names -> cell (writes (fst r3) ws) (snd r1) k = cell h src k /\ snd r3 <> snd r1.
+Proof. exact refitting_a_clone_keeps_the_original. Qed.
+Print Assumptions refitting_a_clone_keeps_the_original.
+
+Theorem aliasing_constructor_shares_refuted :
+  exists names h src ws k, live h src /\ (forall w, In w ws -> target w = src) /\ In k names /\
+    let r := construct Alias names h src in cell (writes (fst r) ws) (snd r) k <> cell h src k.
+Proof. exact aliasing_constructor_shares_refuted. Qed.
+Print Assumptions aliasing_constructor_shares_refuted.
+
+Example sweep_example :
+  let r1 := construct Base_init_params ["K"] demo_heap 0%nat in
+  let h2 := writes (fst r1) [(0%nat, "K", 1%R)] in
+  let r2 := construct Base_init_params ["K"] h2 0%nat in
+  cell (fst r2) (snd r1) "K" = Some 0%R /\ cell (fst r2) (snd r2) "K" = Some 1%R.
+Proof. exact sweep_example. Qed.
